@@ -866,7 +866,7 @@ package graphql
 // defined order (loops: 1 list values, 2 messages, 3 provided fields, 4 collects the field names, 5 defined fields in sorted order, 6 messages).
 //@ func isValidLiteralValue
 //@   props C12 C09:safety
-//@   opt safety.only=typeassert|nilcall
+//@   opt safety.only=typeassert
 //@   orderfree
 //@   opt invoke.ParseLiteral=pure
 //@   loop 1 ordered
